@@ -165,7 +165,25 @@ def theorem_at(loc):
 # harness build
 # --------------------------------------------------------------------------------------
 
+def harness_dir(name="harness"):
+    """the harness crate to build: the committed one (path dep on /repo), or — when BV_REPO points at a
+    scratch worktree — a shadow copy whose path dependency is rewritten to it (used only for testing
+    the machinery against modified trees without touching /repo)"""
+    src = os.path.join(ROOT, name)
+    if REPO == "/repo":
+        return src
+    tag = hashlib.md5(REPO.encode()).hexdigest()[:8]
+    dst = os.path.join(ROOT, "work", f"shadow_{name}_{tag}")
+    os.makedirs(dst, exist_ok=True)
+    subprocess.run(["rsync", "-a", "--delete", "--exclude", "target", src + "/", dst + "/"], check=True)
+    ct = open(os.path.join(dst, "Cargo.toml")).read().replace('path = "/repo"', f'path = "{REPO}"')
+    open(os.path.join(dst, "Cargo.toml"), "w").write(ct)
+    return dst
+
+
 def build_harness(ctx, release=False):
+    global HARNESS
+    HARNESS = harness_dir()
     with Lock("cargo"):
         t = time.time()
         cmd = "cargo build --offline" + (" --release" if release else "")
